@@ -2,12 +2,15 @@ CONSTANTS
  Keys = {"k1","k2"}
  ContentLen = 4
  Ranges <- R_big
+ RepStates = {"present","absent","failing","timeout","canceled","stalled"}
  MaxOps = 1000000
  DevNoFallback = FALSE
  DevFallbackDropsRange = FALSE
  DevIndexNoFallback = FALSE
  DevWriteToReplica = FALSE
  DevListFromReplica = FALSE
+ DevNoFallbackOnCtxErr = FALSE
+ DevReplicaTimeoutShadows = FALSE
 INIT TInit
 NEXT TNext
 POSTCONDITION Reached
